@@ -34,6 +34,7 @@ RULE = ("cases = (list, operation, arguments) enumerated exhaustively, plus ever
         "reached breadth-first; distinct = digest of (item contents + alias pattern, operation with arguments); "
         "non-trivial = list has >= 2 items and holds a None value, a duplicate item or items with different key sets")
 ASSUMPTIONS = [
+    "'+ and extend produce the same item sequence as the same operation on a Python list' is read as producing a list of their own, as [] + other does: the result being the argument object itself is reported (the receiver itself is not - group_by-style returns are outside this property)",
     "item values outside {None, 1, 2, 'x'} (plus the few constants the modify/fill arguments write) and lists longer than the bound are not explored in E1; chains reach longer lists only through +, extend and *",
     "the six editing methods (select, unselect, rename, modify, modify_if, fill_missing_keys) are compared by item contents only: the statement does not say whether they edit items in place or rebuild them",
     "where the statement is silent and plain Python raises (key=value filter or unique(*keys) on an item lacking the key) raising, the .get answer and 'an absent key equals nothing' are all accepted; sort on such lists, unique() on items with no common key, rename onto a name that stays, filter() without condition and negative n for head/tail are excluded (DESIGN 3.5)",
@@ -494,6 +495,10 @@ def step(d, op, rec, confirm=True, fallback=None, pre_key=None, okey=None, outco
         return Step("ok")
     if not isinstance(out, ListOfDicts):
         return fail("type", f"{name} returned a {type(out).__name__}, not a ListOfDicts")
+    if name in ("extend", "add") and out is args.get("other") and out is not d:
+        # [] + chunk and list(chunk) are new lists: handing the ARGUMENT back as the result makes every later list-level
+        # edit of one (l[i] = item, list.append) an edit of the other's item sequence (seeded C15-r12-1)
+        return fail("result-is-argument", f"{name} returned its argument object itself, not a new list")
     got = list(out)
     bad = None
     for alt in exp.alts:
